@@ -26,19 +26,19 @@ def _tool(k):
 
 OPS = {
     "list_tools": dict(method="tools/list", call=lambda c: c.list_tools(), params=None,
-                       payload=lambda k: {"tools": [_tool(k)]},
+                       payload=lambda k: dict({"tools": [_tool(k)]}, **({"nextCursor": f"page-{k}"} if k % 2 else {})),
                        marker=lambda r: [_get(t, "name") for t in r]),
     "call_tool": dict(method="tools/call", call=lambda c: c.call_tool("thing", {"x": 1}), params={"name": "thing", "arguments": {"x": 1}},
                       payload=lambda k: {"content": [{"type": "text", "text": f"t{k}"}], "isError": False},
                       marker=lambda r: [_get(x, "text") for x in _get(r, "content")]),
     "list_resources": dict(method="resources/list", call=lambda c: c.list_resources(), params=None,
-                           payload=lambda k: {"resources": [{"uri": "file:///a", "name": f"t{k}"}]},
+                           payload=lambda k: dict({"resources": [{"uri": "file:///a", "name": f"t{k}"}]}, **({"nextCursor": f"page-{k}"} if k % 2 else {})),
                            marker=lambda r: [_get(x, "name") for x in r]),
     "read_resource": dict(method="resources/read", call=lambda c: c.read_resource("file:///a/b.txt"), params={"uri": "file:///a/b.txt"},
                           payload=lambda k: {"contents": [{"uri": "file:///a/b.txt", "text": f"t{k}"}]},
                           marker=lambda r: [_get(x, "text") for x in _get(r, "contents")]),
     "list_prompts": dict(method="prompts/list", call=lambda c: c.list_prompts(), params=None,
-                         payload=lambda k: {"prompts": [{"name": f"t{k}"}]},
+                         payload=lambda k: dict({"prompts": [{"name": f"t{k}"}]}, **({"nextCursor": f"page-{k}"} if k % 2 else {})),
                          marker=lambda r: [_get(x, "name") for x in r]),
     "get_prompt": dict(method="prompts/get", call=lambda c: c.get_prompt("p", {"a": "b"}), params={"name": "p", "arguments": {"a": "b"}},
                        payload=lambda k: {"messages": [{"role": "user", "content": {"type": "text", "text": f"t{k}"}}]},
